@@ -93,6 +93,9 @@ class Interp(object):
         if isinstance(st, ast.Expr):
             if isinstance(st.value, ast.Constant):
                 return
+            if isinstance(st.value, ast.Call) and isinstance(st.value.func, ast.Attribute) and \
+                    st.value.func.attr in ("_log", "log", "debug", "info", "warning", "error") and unparse(st.value.func) not in self.intr:
+                return      # logging has no effect on the evaluated behaviour; its arguments are not evaluated
             self.expr(st.value, env)
             return
         if isinstance(st, ast.Assign):
